@@ -47,8 +47,6 @@ Definition run_where (text : bytes) (times : list (bytes * option Z)) (events : 
       end
   end.
 
-Definition min_ts : Z := (-9223372036854775808)%Z.
-Definition max_ts : Z := 9223372036854775807%Z.
 
 Definition run_query (text : bytes) (times : list (bytes * option Z)) (stored : list ev3) : option (list event) :=
   match expr_of_text text with
@@ -58,7 +56,8 @@ Definition run_query (text : bytes) (times : list (bytes * option Z)) (stored : 
       | None => None
       | Some None => None
       | Some (Some f) =>
-          match fit_drain (S (List.length stored)) f min_ts max_ts (map to_event stored) with
+          (* SELECT ... WHERE e without RANGE: the filter iterator on the default range of newFIterator *)
+          match fit_query f (map to_event stored) with
           | Ok l => Some l
           | _ => None
           end
